@@ -206,7 +206,7 @@ def loadFloatEncoding (ens : Option String) (x : XmlNode) : LoadM Encoding := do
   let d ← loadDefaultCalibrator ens x
   let c ← loadContextCalibrators ens x
   -- constructor validation
-  let enc := if enc0 == "IEEE-754" then "IEEE754" else if enc0 == "MIL-1750A" then "MILSTD_1750A" else enc0
+  let enc := normFloatEncoding enc0
   if !(["IEEE754_1985", "IEEE754", "MILSTD_1750A", "DEC", "IBM", "TI"].contains enc) then throw .value
   if !(["IEEE754_1985", "IEEE754", "MILSTD_1750A"].contains enc) then throw .other   -- NotImplementedError
   if enc == "MILSTD_1750A" && size != 32 then throw .value
